@@ -116,8 +116,12 @@ type machine struct {
 	chanCount   int
 	mayBeFull   map[*chanObj]bool
 	addrs       map[*value]uint64
-	stubs       map[string]*int
+	stubs       map[string]*stubState
 	model       map[string]uint64
+	pending     []pendingObl
+	lastIf      *ssa.If
+	flushing    bool
+	oblSeq      int
 	evalCache   map[*Term]uint64
 	status      string // "", "ok", "infeasible", "error", "steplimit", "deadlock", "panic"
 	errMsg      string
@@ -128,6 +132,11 @@ type machine struct {
 	replayHit   map[string]bool // labels whose assertion evaluated to false / reach labels hit
 	race        *raceState
 	transitions int64
+}
+
+type stubState struct {
+	calls  int
+	nondet bool
 }
 
 type arrRead struct {
@@ -153,6 +162,7 @@ func (m *machine) addPCKeepModel(t *Term) {
 	if t.IsTrue() {
 		return
 	}
+	m.flush()
 	m.pc = append(m.pc, t)
 	if m.solver != nil {
 		m.solver.Assert(t)
@@ -220,7 +230,7 @@ func (m *machine) branch(c *Term) bool {
 		if v == 0 {
 			side, other = nc, c
 		}
-		r, vals := m.solver.Check([]*Term{other}, m.vars)
+		r, vals := m.check([]*Term{other}, m.vars)
 		if r == "unsat" {
 			m.trace = append(m.trace, Decision{K: 'b', C: int(v), F: true})
 			m.addPCKeepModel(side)
@@ -231,17 +241,18 @@ func (m *machine) branch(c *Term) bool {
 			vals = nil
 		}
 		m.pushAltModel(Decision{K: 'b', C: int(v ^ 1)}, vals)
+		m.h.noteFork(m)
 		m.trace = append(m.trace, Decision{K: 'b', C: int(v)})
 		m.addPCKeepModel(side)
 		return v == 1
 	}
-	r1, v1 := m.solver.Check([]*Term{c}, m.vars)
+	r1, v1 := m.check([]*Term{c}, m.vars)
 	if r1 == "unsat" {
 		m.trace = append(m.trace, Decision{K: 'b', C: 0, F: true})
 		m.addPC(nc)
 		return false
 	}
-	r2, v2 := m.solver.Check([]*Term{nc}, m.vars)
+	r2, v2 := m.check([]*Term{nc}, m.vars)
 	if r2 == "unsat" {
 		m.trace = append(m.trace, Decision{K: 'b', C: 1, F: true})
 		m.addPC(c)
@@ -257,6 +268,7 @@ func (m *machine) branch(c *Term) bool {
 		v2 = nil
 	}
 	m.pushAltModel(Decision{K: 'b', C: 0}, v2)
+	m.h.noteFork(m)
 	m.trace = append(m.trace, Decision{K: 'b', C: 1})
 	m.addPC(c)
 	if r1 == "sat" {
@@ -317,7 +329,7 @@ func (m *machine) concretize(t *Term, why string) int64 {
 			ex = append(ex, mkNot(mkEq(t, mkBV(w, x))))
 		}
 		want := append(append([]*Term{}, m.vars...), t)
-		r, vals := m.solver.Check(ex, want)
+		r, vals := m.check(ex, want)
 		if r != "sat" {
 			if r == "unknown" {
 				m.h.noteUnknownBranch()
@@ -512,9 +524,26 @@ func (m *machine) buildRecord(kind, label, msg string, vals []ModelVal) Violatio
 	return v
 }
 
+type pendingObl struct {
+	label string
+	cond  *Term
+	seq   int
+}
+
+// check flushes batched assertions and then asks the solver.
+func (m *machine) check(extras []*Term, want []*Term) (string, []ModelVal) {
+	m.flush()
+	return m.solver.Check(extras, want)
+}
+
+func (m *machine) inPrefix() bool { return m.replay == nil && m.pos < len(m.prefix) }
+
 // obligation checks that cond holds on every completion of the current path condition.
+// Assertions met while re-executing the prefix of a work item were decided by the ancestor path under the
+// identical path condition and are not asked again; consecutive assertions under one path condition are
+// decided by one query on their conjunction (and one by one if that is satisfiable).
 func (m *machine) obligation(label string, cond *Term) {
-	m.h.countObligation(label)
+	m.oblSeq++
 	if m.replay != nil {
 		if !cond.isC {
 			panic(engineError{"symbolic assertion during concrete replay"})
@@ -525,10 +554,56 @@ func (m *machine) obligation(label string, cond *Term) {
 		}
 		return
 	}
+	if m.inPrefix() {
+		if d := m.prefix[m.pos]; d.K == 'a' && d.V == uint64(m.oblSeq) {
+			m.pos++
+			m.trace = append(m.trace, d)
+			m.addPCKeepModel(cond)
+		}
+		return
+	}
+	m.h.countObligation(label)
 	if cond.IsTrue() {
 		m.h.countDischarged(label, "const")
 		return
 	}
+	m.pending = append(m.pending, pendingObl{label, cond, m.oblSeq})
+	if cond.IsFalse() {
+		m.flush()
+	}
+}
+
+func (m *machine) flush() {
+	if len(m.pending) == 0 || m.flushing {
+		return
+	}
+	m.flushing = true
+	defer func() { m.flushing = false }()
+	p := m.pending
+	m.pending = nil
+	if len(p) > 1 {
+		conj := trueT
+		for _, o := range p {
+			conj = mkAnd(conj, o.cond)
+		}
+		if res, _ := m.solver.Check([]*Term{mkNot(conj)}, nil); res == "unsat" {
+			for _, o := range p {
+				m.h.countDischarged(o.label, "unsat")
+			}
+			return
+		}
+	}
+	for _, o := range p {
+		m.obligationNow(o.label, o.cond, o.seq)
+	}
+}
+
+func (m *machine) assumeAfterFailure(cond *Term, seq int) {
+	m.trace = append(m.trace, Decision{K: 'a', V: uint64(seq), F: true})
+	m.addPC(cond)
+}
+
+func (m *machine) obligationNow(label string, cond *Term, seq int) {
 	nc := mkNot(cond)
 	res, vals := m.solver.Check([]*Term{nc}, m.modelWant())
 	switch res {
@@ -537,7 +612,7 @@ func (m *machine) obligation(label string, cond *Term) {
 		return
 	case "unknown":
 		m.h.noteInconclusive(label)
-		m.addPC(cond)
+		m.assumeAfterFailure(cond, seq)
 		return
 	}
 	// sat: is it a listed known finding?
@@ -564,12 +639,12 @@ func (m *machine) obligation(label string, cond *Term) {
 			if cond.IsFalse() {
 				m.endPath("known-finding")
 			}
-			m.addPC(cond)
+			m.assumeAfterFailure(cond, seq)
 			return
 		}
 		if res2 == "unknown" {
 			m.h.noteInconclusive(label)
-			m.addPC(cond)
+			m.assumeAfterFailure(cond, seq)
 			return
 		}
 		vals = vals2
@@ -579,23 +654,26 @@ func (m *machine) obligation(label string, cond *Term) {
 	if cond.IsFalse() {
 		m.endPath("violation")
 	}
-	m.addPC(cond)
+	m.assumeAfterFailure(cond, seq)
 }
 
 // violationNow records an unconditional violation on this path (deadlock, uncaught panic ...).
 func (m *machine) violationNow(label, msg string) {
-	m.h.countObligation(label)
 	if m.replay != nil {
 		m.replayHit["violation:"+label] = true
 		return
 	}
+	if m.inPrefix() {
+		return
+	}
+	m.h.countObligation(label)
 	regions := m.eng.knownRegions(m.h.name, label)
 	if len(regions) > 0 {
 		var inAny *Term = falseT
 		for _, r := range regions {
 			inAny = mkOr(inAny, m.regionTerm(r.Where))
 		}
-		res2, _ := m.solver.Check([]*Term{mkNot(inAny)}, nil)
+		res2, _ := m.check([]*Term{mkNot(inAny)}, nil)
 		if res2 == "unsat" {
 			for _, r := range regions {
 				m.h.knownHit(r)
@@ -603,7 +681,7 @@ func (m *machine) violationNow(label, msg string) {
 			return
 		}
 	}
-	_, vals := m.solver.Check(nil, m.modelWant())
+	_, vals := m.check(nil, m.modelWant())
 	rec := m.buildRecord("violation", label, msg, vals)
 	m.violations = append(m.violations, rec)
 }
@@ -613,10 +691,10 @@ func (m *machine) reach(label string) {
 		m.replayHit["reach:"+label] = true
 		return
 	}
-	if !m.h.needWitness(label) {
+	if m.inPrefix() || !m.h.needWitness(label) {
 		return
 	}
-	res, vals := m.solver.Check(nil, m.modelWant())
+	res, vals := m.check(nil, m.modelWant())
 	if res != "sat" {
 		return
 	}
@@ -755,6 +833,9 @@ func (m *machine) threadMain(t *thread, fn value, args []value) {
 		}
 		t.done = true
 		if t.id == 0 {
+			if m.replay == nil {
+				safely(func() { m.flush() })
+			}
 			if m.status == "" {
 				m.status = "ok"
 			}
